@@ -152,9 +152,11 @@ func checkC01Random(c *Ctx) {
 	traceCase := make([]int, 0, n)
 	classes := map[string]int{}
 	slow := make([]bool, n)
+	errClass := make([]string, n)
 	nsample := 0
 	pool.Map(jobs, func(i int, r Result) {
 		classes[r.Class]++
+		errClass[i] = r.Class
 		slow[i] = r.Class == "budget" || r.Class == "timeout" || strings.Contains(r.ErrMsg, "fuzz test loop limit")
 		rep := func(why string) map[string]any {
 			return map[string]any{"kind": cases[i].Kind, "program": cases[i].Prog, "program_bytes": []byte(cases[i].Prog), "selectors": cases[i].Sels, "inputs": cases[i].Files,
@@ -202,8 +204,21 @@ func checkC01Random(c *Ctx) {
 
 	// the binary on a sample
 	dir := c.TempDir("rndbin")
-	parallelDo(nbin, 16, func(k int) {
-		i := (k * 37) % n
+	// prefer the runs that ended in an error (their diagnostics are what can go wrong), then the rest
+	var binIdx []int
+	for i := range cases {
+		if !slow[i] && (errClass[i] == "syntax" || errClass[i] == "runtime" || errClass[i] == "json") && len(cases[i].Prog) < 4000 {
+			binIdx = append(binIdx, i)
+		}
+	}
+	if len(binIdx) > nbin*8 {
+		binIdx = binIdx[:nbin*8]
+	}
+	for k := 0; k < nbin; k++ {
+		binIdx = append(binIdx, (k*37)%n)
+	}
+	parallelDo(len(binIdx), 16, func(k int) {
+		i := binIdx[k]
 		if slow[i] {
 			return
 		}
@@ -255,4 +270,92 @@ func batches(n, size int) [][2]int {
 		out = append(out, [2]int{lo, hi})
 	}
 	return out
+}
+
+// ---------------------------------------------------------------------------
+// Crash sweep: every method and builtin x a pool of receivers of every kind and
+// shape x a pool of argument lists.  The only claim is C01's: success or a
+// runtime error, never a panic / crash / foreign error.  (What the methods
+// compute is C15's and C16's business.)
+
+var sweepReceivers = []string{
+	`[]`, `[1]`, `["a"]`, `[1, "a"]`, `["a", 1]`, `[null, 1]`, `[1, null]`, `[[1], 2]`, `[2, [1]]`, `[{}, 1]`, `[true, 2]`, `["b", 1, "a"]`, `[1, 2, "x", 3]`,
+	`[3, 1, 2]`, `[[2], [1]]`, `[{a: 1}, {a: 0}]`, `[/a/, 1]`, `[fnv, 1]`, `[null, null]`, `[1, unsetv]`,
+	`{}`, `{a: 1}`, `{a: 1, b: [1]}`, `{length: 1}`, `""`, `"abc"`, `"a,b,,c"`, `"héé"`, `" "`, `0`, `1`, `(0 - 1)`, `2.5`, `(0 - 2.5)`, `100000000000000000000`,
+	`true`, `false`, `null`, `unsetv`, `/a/`, `fnv`, `$`, `$[0]`, `$.a`, `[1][0]`, `{a: [2, "x", 1]}.a`,
+}
+
+var sweepMethods = []string{"length", "push", "pop", "popfirst", "contains", "sort", "split", "upper", "lower", "floor", "ceil", "round", "pluck", "nosuch"}
+
+var sweepArgs = []string{``, `1`, `"a"`, `","`, `""`, `null`, `[1]`, `{}`, `1, 2`, `"a", "b", "c"`, `unsetv`, `fnv`, `/a/`, `[]`, `(0 - 1)`}
+
+func checkC01Sweep(c *Ctx) {
+	pool := c.Pool()
+	var jobs []Job
+	mk := func(stmt string) {
+		prog := "function fnv(a) {\n  return a\n}\nBEGIN {\n  r = " + stmt + "\n  print r\n}\n{\n  r = " + stmt + "\n  print r\n}\n"
+		jobs = append(jobs, Job{Kind: "run", Prog: []byte(prog), Files: []FileIn{{Name: "in.json", Data: []byte(`[[3,"b",1],{"a":["x",2]}]`)}}, Budget: 100000, Tag: stmt})
+	}
+	for _, rv := range sweepReceivers {
+		for _, m := range sweepMethods {
+			for _, a := range sweepArgs {
+				mk("(" + rv + ")." + m + "(" + a + ")")
+			}
+		}
+		for _, b := range []string{"json", "num", "printf"} {
+			mk(b + "(" + rv + ")")
+			mk(b + "(\"%s %v\", " + rv + ")")
+		}
+		for _, a := range sweepArgs {
+			mk("(" + rv + ")(" + a + ")")
+		}
+	}
+	pool.Map(jobs, func(i int, r Result) {
+		switch r.Class {
+		case "ok", "runtime":
+			c.Case("sweep:"+jobs[i].Tag, true)
+		case "budget", "timeout":
+			c.Count("inconclusive", 1)
+		default:
+			c.Violation("sweep-"+r.Class, map[string]any{"statement": jobs[i].Tag, "program": string(jobs[i].Prog), "got_class": r.Class, "got_err_type": r.ErrType,
+				"got_err": r.ErrMsg, "detail": r.Detail, "why": "a method / builtin / call on this receiver and argument list must succeed or fail with a runtime error"})
+		}
+	})
+	c.Sample(map[string]any{"family": "crash sweep", "statement": jobs[len(jobs)/3].Tag})
+}
+
+// Programs whose error sits at an awkward position (end of line, end of input,
+// inside a multi-byte character, empty program text): through the binary.
+var awkwardPrograms = []string{
+	"{ print '\n}", "{ print \"\n}", "{ x = \"\nabc\\q\" }", "{ print '", "'", "\"", "{", "{ print 1 +", "{ print 1 +\n", "BEGIN {\n  x = 1 /\n", "\n\n@", "@\n", "{ print \xc3\xa9 }", "{ x\xc3\xa9 = 1 }",
+	"{ print 'a\\", "{ print 'a\\'\n }", "BEGIN { print 1 / 0\n}", "BEGIN {\nprint $nope }", "BEGIN { x = [1]\nprint x[0 - 5]\n}", "", "\n", "#", "# only a comment\n", "BEGIN { print /abc\n}", "BEGIN { print /abc",
+	"function", "function f", "function f(", "function f(a,", "BEGIN { f( }", "{ match (1) { 1 => } }", "{ for (", "{ for (x in", "{ if (1) print 1 else", "{ x = {a: } }", "{ x = [1, }",
+}
+
+func checkC01Awkward(c *Ctx) {
+	dir := c.TempDir("awk")
+	os.WriteFile(filepath.Join(dir, "in.json"), []byte(`[1,{"a":2}]`), 0o644)
+	type one struct {
+		args []string
+	}
+	var cases []one
+	for i, p := range awkwardPrograms {
+		cases = append(cases, one{[]string{p, "in.json"}})
+		fn := filepath.Join(dir, fmt.Sprintf("p%d.jqawk", i))
+		os.WriteFile(fn, []byte(p), 0o644)
+		cases = append(cases, one{[]string{"-f", fn, "in.json"}})
+		cases = append(cases, one{[]string{"-r", p, "{ print }", "in.json"}})
+	}
+	parallelDo(len(cases), 16, func(i int) {
+		br := c.RunBin(cases[i].args, nil, dir, 0)
+		if br.TimedOut {
+			c.Count("inconclusive", 1)
+			return
+		}
+		if why := binaryVerdict(br); why != "" {
+			c.Violation("awkward-binary", map[string]any{"args": cases[i].args, "exit": br.Exit, "stderr": firstN(string(br.Stderr), 1500), "why": why})
+			return
+		}
+		c.Case("awk:"+strings.Join(cases[i].args, " "), true)
+	})
 }
